@@ -79,14 +79,24 @@ def producer():
 
 def consumer(x):
     if _fault().get("mode") in ("raise_busy_sibling", "raise_busy_deaf_sibling"):
+        flag = _fault().get("flag", "")
         if x == ("p", 0):
+            open(flag, "w").close()  # tells the sibling that the failing task is running NOW
             time.sleep(1.5)          # the sibling has begun its long computation by now
             raise RuntimeError("injected failure next to a busy sibling")
+        # The sibling is busy only while the failing task runs at the same time. The scheduler is free to run the two consumers
+        # one after the other on one worker: then there is no busy sibling, this task ends at once and the other one fails the run.
+        for _ in range(30):
+            if os.path.exists(flag):
+                break
+            time.sleep(0.1)
+        else:
+            return ("c", x)
         if _fault().get("mode") == "raise_busy_deaf_sibling":
             signal.signal(signal.SIGTERM, lambda *a: None)      # the task body handles SIGTERM itself
         end = time.time() + 600
         while time.time() < end:     # (a handled signal interrupts sleep: keep computing)
-            time.sleep(1)              # a long task body: this worker does not read WorkerShutdown
+            time.sleep(1)
     _strike("before", "t2")
     r = ("c", x)
     _strike("after_compute", "t2")
